@@ -24,7 +24,6 @@ RULE = ("product of shapes x coils x (calib_width, kernel_width) x thresh x crop
         "bounds; non-trivial = at least one voxel kept and (for crop in (0,1)) at least one voxel cropped or kept")
 ASSUMPTIONS = ["numpy.random seeded before each run", "norm tolerance 1e-5 (complex64) / 1e-9 (complex128)"]
 CHUNK = 4
-CASE_TIMEOUT = {"quick": 300, "thorough": 900}
 
 
 def bounds(tier):
